@@ -83,6 +83,27 @@ FIRST_MISS = {
     ('C20', 'm12'): "NOT A VIOLATION OF THE STATEMENT AS GIVEN (final check exits 0): the change drops link records beyond the 1024th of a run; the statement asks every link record to be valid, not every derived item to have one. A rule 'every auxiliary variable is the destination of a link record' caught it but raised a false alarm on the pinned tree (seed 1: the auxiliary variables of a QP objective moved into a rotated cone have no exported link record although their names are derived through one), so it was demoted to a probe (probe.aux_vars_without_link_record); big models (1050..1750 appended range rows) stay in the generator",
     ('C20', 'm13'): "the pre-existing export file was always a regular file; in a third of those scenarios the option now names a symbolic link to the earlier export",
     ('C04', 'm12'): "dual value classes were large / negative / small / zero-on-odd-rows; added 'every dual exactly zero' (no binding row)",
+    # ---- round 7 (m14, m15)
+    ('C15', 'm14'): "every registration carried a data pointer; a null pointer is a valid thing to register (cplexmp does) and 15 % of the scenarios now register without data",
+    ('C08', 'm14'): "the solver stub always returned a primal point; 15 % of the answers now come without one (the .sol holds fewer primal values than the problem has columns) and the rest of the solution must still arrive",
+    ('C08', 'm15'): "bounds and row ranges were integers and halves; a quarter of the models now have bounds / ranges that need all 17 significant digits (0.1+0.2, 1.1*1.1, thirds)",
+    ('C11', 'm14'): "only BasicSolver::ParseOptions was driven; in 20 % of the scenarios the command line now goes through the application's switch parser first ([switches] [--] stub [-AMPL] assignments), which must take the stub and leave the option parser at the first assignment",
+    ('C11', 'm15'): "quoted values had no backslashes; values such as 'C:\\tmp dir\\' (a backslash right before the closing quote) are now generated: backslashes are ordinary characters",
+    ('C10', 'm14'): "no run had a solution pool; every code is now also answered with sol:stub and two alternative solutions handed out after the status is known: the alternative-solution files carry that code",
+    ('C10', 'm15'): "infeasibility was only ever reported by the solver stub; two models the converter itself proves infeasible while propagating a result must end in the documented class 200-299, in both invocation modes",
+    ('C12', 'm14'): "AMPLS sessions always passed an option list; 10 % of the scenarios now load the model with a NULL list and carry every option, the objective selection included, in the environment",
+    ('C12', 'm15'): "no run had a solution pool; 12 % now have sol:stub with two alternative solutions, whose files must echo the objective number the final file echoes",
+    ('C14', 'm15'): "the easy consumer's solver object was fresh; in 40 % of its scenarios it has now loaded a bigger model of mixed column classes (a permuted NL order) before the all-continuous model under test",
+    ('C04', 'm14'): "fixed variables were removed from the generated models; 15 % now have one original variable fixed by its bounds at a constant that also occurs in an expression of the model",
+    ('C02', 'm14'): "the in-memory path always used NLStringRef(pointer, size); in 30 % of the scenarios it now hands over a std::string, whose size (not its first NUL) ends the input",
+    ('C19', 'm15'): "long names were generated for C09 only; 12 % of the C19 scenarios now have distinct names of 40..5000 characters that differ in the last few only",
+    ('C20', 'm14'): "no quadratic body lost its quadratic part; the generator now has a function of a quadratic body whose terms cancel once sorted and merged (abs(x*y - y*x + z))",
+    ('C03', 'm14'): "NOT CAUGHT (final check exits 0): the change is in the C adapter of the feeder interface (api/c/nl-feeder-c-impl.h); the C03 writer party is a C++ feeder only - a C callback-table feeder party was not built in the time left",
+    ('C03', 'm15'): "NOT CAUGHT by the C03 check (final check exits 0): the change is in NLFeeder_Easy (the feeder behind NLModel); NLModel is the writer party of C08, whose check reports it (real-valued variable suffix through the permutation), not of C03",
+    ('C04', 'm15'): "NOT CAUGHT (final check exits 0): a functional constraint shared by two original constraints stays linked to the first user only; the oracle matches images of linear rows by content and has no independent notion of which delivered rows belong to a nonlinear constraint",
+    ('C05', 'm14'): "NOT CAUGHT (final check exits 0): the change is in SolutionWriterImpl (the driver-side entry that builds the solution object); the C05 writer party enters at mp::WriteSolFile with its own solution object. The whole-driver checks (C04: DUAL_MISSING with a dual-only answer) exercise that entry",
+    ('C05', 'm15'): "NOT CAUGHT (final check exits 0): same entry as C05/m14 (Problem::ReportSuffix with a history on one mp::Problem)",
+    ('C09', 'm15'): "NOT CAUGHT (final check exits 0): a supported model is refused as 'not implemented' with a well-formed failure .sol; telling a true from a spurious 'unsupported' diagnosis needs operator-support knowledge per context that the oracle does not have (a probe counts refusals of models without an unsupported construct: 914 of 48 000 on the pinned tree, all legitimate as far as inspected)",
 }
 
 res = {}
